@@ -11,11 +11,6 @@ macro_rules! verif_file {
 verif_file!(common);
 verif_file!(c08_prime);
 
-// native replay of solver counterexamples (cargo kani playback); IPA_VERIF_REPLAY names the file.
-#[cfg(test)]
-mod replay {
-    include!(env!("IPA_VERIF_REPLAY"));
-}
 verif_file!(c08_gf);
 verif_file!(c08_ba);
 verif_file!(c09_serde);
@@ -23,3 +18,11 @@ verif_file!(c10_report);
 verif_file!(c08_derived);
 verif_file!(c15_seq_join);
 verif_file!(scratch);
+
+// native replay slot (cargo kani playback): the driver points IPA_VERIF_REPLAY_DIR at a directory
+// holding one file per hook; the generated test calls the harness by its path relative to this module.
+#[cfg(test)]
+mod replay_here {
+    use super::*;
+    include!(concat!(env!("IPA_VERIF_REPLAY_DIR"), "/root.rs"));
+}
